@@ -216,3 +216,93 @@ package pegnet
 //@   ensures !isRejectErr(result)
 //@   ensures result == nil ==> LbankPresent[height] && LbankUsed == upd(old(LbankUsed), height, bankUsed) && LbankReq == upd(old(LbankReq), height, pegRequested)
 //@   ensures envHealthy && LbankPresent[height] ==> result == nil
+//@
+//@ // ---- version lock (C19) ---------------------------------------------------------------------------
+//@ //   LsyncPresent[x], LsyncVer[x]   pn_sync_version rows (height -> pegnetd sync version)
+//@ //   LmetaPresent, LmetaSynced      the "synced" row of pn_metadata
+//@ ghost var LsyncPresent set[int]
+//@ ghost var LsyncVer map[int]int
+//@ ghost var LmetaPresent bool
+//@ ghost var LmetaSynced int
+//@
+//@ spec func noRows(pres set[int]) bool = forall x int :: !pres[x]
+//@ spec func isMinH(pres set[int], r int) bool = (r == 0 && noRows(pres)) || (pres[r] && (forall x int :: pres[x] ==> r <= x))
+//@ spec func isMaxH(pres set[int], r int) bool = (r == 0 && noRows(pres)) || (pres[r] && (forall x int :: pres[x] ==> x <= r))
+//@ spec func noneFrom(pres set[int], h int) bool = forall x int :: !(pres[x] && x >= h)
+//@ spec func isMinVerFrom(pres set[int], ver map[int]int, h int, r int) bool =
+//@     (r == 0 - 1 && noneFrom(pres, h)) || ((exists x int :: pres[x] && x >= h && ver[x] == r) && (forall x int :: pres[x] && x >= h ==> r <= ver[x]))
+//@ spec func isMaxVerFrom(pres set[int], ver map[int]int, h int, r int) bool =
+//@     (r == 0 - 1 && noneFrom(pres, h)) || ((exists x int :: pres[x] && x >= h && ver[x] == r) && (forall x int :: pres[x] && x >= h ==> ver[x] <= r))
+//@ // some block at or above height h was synced with a version below m (no row at all counts as version -1)
+//@ spec func tooOld(pres set[int], ver map[int]int, h int, m int) bool =
+//@     (noneFrom(pres, h) && 0 - 1 < m) || (exists x int :: pres[x] && x >= h && ver[x] < m)
+//@ spec func newerThan(pres set[int], ver map[int]int, v int) bool = exists x int :: pres[x] && ver[x] > v
+//@
+//@ func (Pegnet).LowestSynced
+//@   trusted
+//@   pure
+//@   nullable tx
+//@   ensures result1 == nil ==> isMinH(LsyncPresent, result0)
+//@   ensures envHealthy ==> result1 == nil
+//@
+//@ func (Pegnet).HighestSynced
+//@   trusted
+//@   pure
+//@   nullable tx
+//@   ensures result1 == nil ==> isMaxH(LsyncPresent, result0)
+//@   ensures envHealthy ==> result1 == nil
+//@
+//@ func (Pegnet).SelectSynced
+//@   trusted
+//@   pure
+//@   nullable tx
+//@   ensures result1 == nil ==> result0 != nil && LmetaPresent && result0.Synced == LmetaSynced
+//@   ensures result1 != nil ==> result0 == nil
+//@   ensures envHealthy && LmetaPresent ==> result1 == nil
+//@   ensures !LmetaPresent ==> result1 != nil
+//@
+//@ // INSERT into a table whose primary key is the height: fails iff the height is present; a failed INSERT changes nothing
+//@ func (Pegnet).markHeightSyncedVersion
+//@   trusted
+//@   nullable tx
+//@   modifies LsyncPresent, LsyncVer
+//@   ensures result == nil ==> !old(LsyncPresent)[height] && LsyncPresent == upd(old(LsyncPresent), height, true) && LsyncVer == upd(old(LsyncVer), height, version)
+//@   ensures result != nil ==> LsyncPresent == old(LsyncPresent) && LsyncVer == old(LsyncVer)
+//@   ensures envHealthy ==> ((result == nil) <==> !old(LsyncPresent)[height])
+//@
+//@ func (Pegnet).FetchMinSyncedVersion
+//@   trusted
+//@   pure
+//@   nullable tx
+//@   ensures result1 == nil ==> isMinVerFrom(LsyncPresent, LsyncVer, height, result0)
+//@   ensures envHealthy ==> result1 == nil
+//@
+//@ func (Pegnet).FetchMaxSyncedVersion
+//@   trusted
+//@   pure
+//@   nullable tx
+//@   ensures result1 == nil ==> isMaxVerFrom(LsyncPresent, LsyncVer, height, result0)
+//@   ensures envHealthy ==> result1 == nil
+//@
+//@ spec func backfilled(oldPres set[int], metaPresent bool, S int, x int) bool =
+//@     metaPresent && (exists k int :: 0 <= k && k < len(Hardforks) && Hardforks[k].ActivationHeight == x && S >= x)
+//@
+//@ func (Pegnet).CheckHardForks
+//@   props C19
+//@   nullable tx
+//@   requires @versions forall x int :: LsyncPresent[x] ==> LsyncVer[x] >= 0 - 1 && x >= 0
+//@   requires @meta LmetaPresent ==> LmetaSynced >= 0
+//@   modifies LsyncPresent, LsyncVer
+//@   // the legacy back-fill: for every fork height passed by the recorded sync height a marker (height, -1) exists afterwards
+//@   ensures @backfill envHealthy && old(LmetaPresent) && (exists m int :: isMinH(old(LsyncPresent), m) && old(LmetaSynced) > m) ==> (forall x int :: LsyncPresent[x] <==> old(LsyncPresent)[x] || backfilled(old(LsyncPresent), true, old(LmetaSynced), x))
+//@   ensures @backfill_versions envHealthy ==> (forall x int :: LsyncPresent[x] ==> (old(LsyncPresent)[x] ==> LsyncVer[x] == old(LsyncVer)[x]) && (!old(LsyncPresent)[x] ==> LsyncVer[x] == 0 - 1))
+//@   ensures @no_backfill_otherwise envHealthy && !(old(LmetaPresent) && (exists m int :: isMinH(old(LsyncPresent), m) && old(LmetaSynced) > m)) ==> LsyncPresent == old(LsyncPresent) && LsyncVer == old(LsyncVer)
+//@   // refusal: iff (after the back-fill) a fork at or below the top height has a block at or above it synced with too old a version, or a newer build synced something
+//@   ensures @refuse_iff envHealthy ==> ((err != nil) <==> ((exists k int, top int :: 0 <= k && k < len(Hardforks) && isMaxH(LsyncPresent, top) && Hardforks[k].ActivationHeight <= top && tooOld(LsyncPresent, LsyncVer, Hardforks[k].ActivationHeight, Hardforks[k].MinimumVersion)) || newerThan(LsyncPresent, LsyncVer, PegnetdSyncVersion)))
+//@   // a database written by a build that predates version tracking (no version rows at all) and that has synced a fork block is refused
+//@   ensures @legacy_refused{C19} envHealthy && old(LmetaPresent) && noRows(old(LsyncPresent)) && (exists k int :: 0 <= k && k < len(Hardforks) && Hardforks[k].ActivationHeight <= old(LmetaSynced) && Hardforks[k].MinimumVersion > 0 - 1 && old(LmetaSynced) > 0) ==> err != nil
+//@   loop 1 invariant @range 0 <= iter && iter <= len(Hardforks) && bs != nil && bs.Synced == LmetaSynced && LmetaPresent
+//@   loop 1 invariant @marked envHealthy ==> forall x int :: LsyncPresent[x] <==> old(LsyncPresent)[x] || (exists k int :: 0 <= k && k < iter && Hardforks[k].ActivationHeight == x && LmetaSynced >= x)
+//@   loop 1 invariant @versions envHealthy ==> forall x int :: LsyncPresent[x] ==> (old(LsyncPresent)[x] ==> LsyncVer[x] == old(LsyncVer)[x]) && (!old(LsyncPresent)[x] ==> LsyncVer[x] == 0 - 1)
+//@   loop 2 invariant @range 0 <= iter && iter <= len(Hardforks) && isMaxH(LsyncPresent, top)
+//@   loop 2 invariant @none_too_old forall k int :: 0 <= k && k < iter ==> !(Hardforks[k].ActivationHeight <= top && tooOld(LsyncPresent, LsyncVer, Hardforks[k].ActivationHeight, Hardforks[k].MinimumVersion))
